@@ -352,3 +352,116 @@ class not_among_at:
     def body(fs, x, hi, i):
         if i < hi - 1:
             not_among_at(fs, x, hi - 1, i)
+
+
+@lemma("pow2_step")
+class pow2_step:
+    """2**(k+1) == 2 * 2**k (pow2 unfolds seven bits at a time, so this is an induction with step 7)"""
+    types = dict(k="int")
+    fuel = 8
+    requires = lambda k: 0 <= k
+    ensures = lambda k: S.pow2(k + 1) == 2 * S.pow2(k) and S.pow2(k) >= 1
+    decreases = lambda k: k
+
+    def body(k):
+        if k >= 7:
+            pow2_step(k - 7)
+
+
+@lemma("pow2_mono")
+class pow2_mono:
+    """2**a <= 2**b for a <= b"""
+    types = dict(a="int", b="int")
+    requires = lambda a, b: 0 <= a and a <= b
+    ensures = lambda a, b: S.pow2(a) <= S.pow2(b) and S.pow2(a) >= 1
+    decreases = lambda a, b: b - a
+
+    def body(a, b):
+        pow2_step(a)
+        if a < b:
+            pow2_mono(a, b - 1)
+            pow2_step(b - 1)
+
+
+@lemma("digit_at")
+class digit_at:
+    """every one of the first hi elements of a digit tuple is an int between 0 and 9"""
+    types = dict(ds="tuple", hi="int", j="int")
+    requires = lambda ds, hi, j: S.DIGITS_OK(ds, hi) and 0 <= j and j < hi
+    ensures = lambda ds, hi, j: isinstance(ds[j], int) and not isinstance(ds[j], bool) and 0 <= ds[j] and ds[j] <= 9
+    decreases = lambda ds, hi, j: hi
+
+    def body(ds, hi, j):
+        if j < hi - 1:
+            digit_at(ds, hi - 1, j)
+
+
+@lemma("pow10_pos")
+class pow10_pos:
+    types = dict(k="int")
+    requires = lambda k: k >= 0
+    ensures = lambda k: S.pow10(k) >= 1
+    decreases = lambda k: k
+
+    def body(k):
+        if k > 0:
+            pow10_pos(k - 1)
+
+
+# ---- digit tuples extended by zeros (prepare_fixed_decimal pads the digits with exponent + scale zeros)
+@lemma("tnth_left")
+class tnth_left:
+    types = dict(a="tuple", b="tuple", i="int")
+    requires = lambda a, b, i: 0 <= i and i < len(a)
+    ensures = lambda a, b, i: same((a + b)[i], a[i])
+
+    def body(a, b, i):
+        pass
+
+
+@lemma("digits_prefix")
+class digits_prefix:
+    """DIGITS_OK / DIGVAL of the first hi elements do not depend on what follows them"""
+    types = dict(a="tuple", b="tuple", hi="int")
+    requires = lambda a, b, hi: 0 <= hi and hi <= len(a)
+    ensures = lambda a, b, hi: S.DIGITS_OK(a + b, hi) == S.DIGITS_OK(a, hi) and S.DIGVAL(a + b, hi) == S.DIGVAL(a, hi)
+    decreases = lambda a, b, hi: hi
+
+    def body(a, b, hi):
+        if hi > 0:
+            digits_prefix(a, b, hi - 1)
+            tnth_left(a, b, hi - 1)
+
+
+@lemma("zeros_len")
+class zeros_len:
+    types = dict(k="int")
+    requires = lambda k: k >= 0
+    ensures = lambda k: len(S.repeat_tuple((0,), k)) == k
+    decreases = lambda k: k
+
+    def body(k):
+        if k > 0:
+            zeros_len(k - 1)
+
+
+@lemma("digits_zeros")
+class digits_zeros:
+    """digits followed by k zeros are digits, and they write the number times 10**k"""
+    types = dict(ds="tuple", k="int")
+    requires = lambda ds, k: k >= 0 and S.DIGITS_OK(ds, len(ds))
+    ensures = lambda ds, k: (
+        len(S.repeat_tuple((0,), k)) == k
+        and S.DIGITS_OK(ds + S.repeat_tuple((0,), k), len(ds) + k)
+        and S.DIGVAL(ds + S.repeat_tuple((0,), k), len(ds) + k) == S.DIGVAL(ds, len(ds)) * S.pow10(k))
+    decreases = lambda ds, k: k
+
+    def body(ds, k):
+        zeros_len(k)
+        if k > 0:
+            digits_zeros(ds, k - 1)
+            zeros_len(k - 1)
+            # ds + zeros(k) == (ds + zeros(k-1)) + (0,): same first len+k-1 elements, last element 0
+            digits_prefix(ds + S.repeat_tuple((0,), k - 1), (0,), len(ds) + k - 1)
+        else:
+            digits_prefix(ds, (), len(ds))
